@@ -271,4 +271,66 @@ the configuration is returned unchanged alongside the folded value. -/
 def itimeFold {α : Type u} (c : Config) (fold : α → List Bool → α) (init : α) : Config × α :=
   (c, (itimeStates c.state c.slots).foldl fold init)
 
+/-! ## 4. The harness' mock replica, shared by the C17 and C20 drivers (protocol glue, no theorems) -/
+
+namespace MockIO
+open Proto
+
+def nanOr (r : Option Rat) : String :=
+  match r with
+  | some x => showApprox x
+  | none => "nan"
+
+def scriptN (ns : List Nat) (age : Nat) : Nat :=
+  if age = 0 || ns.isEmpty then 0 else ns.getD ((age - 1) % ns.length) 0
+
+
+structure Rep where
+  gid : Nat
+  age : Nat
+  deriving Repr, BEq
+
+def bitsOf (width v : Nat) : List Bool := (List.range width).reverse.map fun b => v.testBit b
+def ofBits (bs : List Bool) : Nat := bs.foldl (fun a b => a * 2 + (if b then 1 else 0)) 0
+
+def encRep (r : Rep) : List Bool := bitsOf 4 r.gid ++ bitsOf 12 r.age
+def decRep (s : List Bool) : Rep := { gid := ofBits (s.take 4), age := ofBits (s.drop 4) }
+def showRep (r : Rep) : String := s!"{r.gid}.{r.age}"
+
+def swapAt (rs : List Rep) (a b : Nat) : List Rep :=
+  match rs[a]?, rs[b]? with
+  | some x, some y => (rs.set a y).set b x
+  | _, _ => rs
+
+abbrev SwapScript := List (List (Nat × Nat))
+
+def mockSys (nss : List (List Nat)) (βs offs : List Rat) : ReplicaSys Rep SwapScript :=
+  { step := fun r => { r with age := r.age + 1 }
+    n := fun r => scriptN (nss.getD (r.gid % nss.length) []) r.age
+    state := encRep
+    energy := fun i a => energyForAvgN (βs.getD i 1) (offs.getD i 0) a
+    swap := fun c =>
+      match c.2 with
+      | [] => c
+      | sw :: rest => (sw.foldl (fun rs p => swapAt rs p.1 p.2) c.1, rest) }
+
+def parseSwapScript (s : String) : SwapScript :=
+  if s == "-" then [] else
+  (s.splitOn ";").map fun step =>
+    if step == "_" then [] else
+    (step.splitOn ".").filterMap fun pr =>
+      match pr.splitOn "-" with
+      | [a, b] => some (parseNat a, parseNat b)
+      | _ => none
+
+/-- a schedule for the model of the parallel driver: round robin from the last slot down -/
+def revRoundRobin (t : Nat) (c : List Rep × SwapScript) : List Nat :=
+  (List.range t).flatMap fun _ => (List.range c.1.length).reverse
+
+def parseNss (s : String) : List (List Nat) :=
+  if s == "-" then [] else (s.splitOn ",").map fun t => (t.splitOn ".").map parseNat
+
+
+end MockIO
+
 end Qmc
